@@ -154,7 +154,60 @@ def cat(tier):
 
 
 def units(tier):
-    return list(range(len(cat(tier)))) + ['shared-cycle']
+    return list(range(len(cat(tier)))) + ['shared-cycle'] + [('many-aliases', i) for i in range(len(MANY))]
+
+
+# (root type, flow text of the anchored node, is it valid for the root's item type)
+MANY = [('any', '[1, 2]'), ('any', '{p: 1}'), ('any', 'a'), (('list', ('list', 'int')), '[1, 2]'), (('list', ('cls', 'In')), '{p: 1}'),
+        (('list', 'str'), 'a'), (('list', ('cls', 'E')), 'red'), (('list', ('dict', 'str', 'int')), '{k: 1}'),
+        (('list', ('list', 'int')), '[1, x]'), (('list', ('cls', 'In')), '{p: no}')]
+
+
+def many_aliases_unit(idx, res, tier):
+    """the number of aliases as a dimension: one anchored node referred to n times, n anchors referred to once each, and
+    a chain (item i+1 = [*item i]); as list items and as dict values.  The expansion is a few kB at most, so whatever
+    the expansion does the aliased document must do"""
+    root, anchored = MANY[idx]
+    counts = (1, 2, 3, 9, 10, 11, 31, 32, 33, 63, 64, 65, 99, 100, 101, 127, 128, 129, 255, 256, 257, 500) + (
+        () if tier == 'quick' else (999, 1000, 1001, 1023, 1024, 1025, 2000, 4095, 4096, 4097))
+    for shape in ('seq', 'map'):
+        r = root if shape == 'seq' or root == 'any' else ('dict', 'str', root[1])
+        case = loadcase.Case({'classes': catalog.BASE, 'root': r})
+        for n in counts:
+            for pattern in ('one-anchor', 'n-anchors', 'tail-anchor'):
+                if shape == 'seq':
+                    if pattern == 'one-anchor':
+                        al = '- &a %s\n' % anchored + '- *a\n' * n
+                        ex = ('- %s\n' % anchored) * (n + 1)
+                    elif pattern == 'n-anchors':
+                        al = ''.join('- &a%d %s\n- *a%d\n' % (i, anchored, i) for i in range(n))
+                        ex = ('- %s\n' % anchored) * (2 * n)
+                    else:
+                        al = ('- %s\n' % anchored) * n + '- &z %s\n- *z\n' % anchored
+                        ex = ('- %s\n' % anchored) * (n + 2)
+                else:
+                    if pattern == 'one-anchor':
+                        al = 'k: &a %s\n' % anchored + ''.join('k%d: *a\n' % i for i in range(n))
+                        ex = 'k: %s\n' % anchored + ''.join('k%d: %s\n' % (i, anchored) for i in range(n))
+                    elif pattern == 'n-anchors':
+                        al = ''.join('k%d: &a%d %s\nj%d: *a%d\n' % (i, i, anchored, i, i) for i in range(n))
+                        ex = ''.join('k%d: %s\nj%d: %s\n' % (i, anchored, i, anchored) for i in range(n))
+                    else:
+                        al = ''.join('k%d: %s\n' % (i, anchored) for i in range(n)) + 'y: &z %s\nz: *z\n' % anchored
+                        ex = ''.join('k%d: %s\n' % (i, anchored) for i in range(n)) + 'y: %s\nz: %s\n' % (anchored, anchored)
+                res.states += 1
+                res.transitions += 1
+                res.traces += 2
+                o0 = case.impl(ex)
+                o1 = case.impl(al)
+                res.hist['many-aliases:' + o0[0]] += 1
+                if o0[0] == 'ok':
+                    res.nontrivial += 1
+                if not same(o0, o1):
+                    res.violation('C18:many-aliases:%s:%s' % (pattern, o0[0] + '->' + o1[0]),
+                                  '%d aliases (%s, %s of %s, document type %s): expanded document %s, aliased document %s' % (
+                                      n, pattern, shape, anchored, r, describe(o0), describe(o1)),
+                                  loadcase.payload(case.spec, ex, kind='alias', aliased=al))
 
 
 def shared_cycle_unit(res, tier):
@@ -347,6 +400,9 @@ def run_unit(unit, tier):
     res = core.Result()
     if unit == 'shared-cycle':
         shared_cycle_unit(res, tier)
+        return res
+    if isinstance(unit, tuple) and unit[0] == 'many-aliases':
+        many_aliases_unit(unit[1], res, tier)
         return res
     fam, spec = cat(tier)[unit]
     case = loadcase.Case(spec)
